@@ -58,7 +58,7 @@ theorem quiet_init : Quiet ({} : St) := by
 theorem modeRule_sim {s : St} {t : Spec.LSt} (hR : R s t) (P : Prog) (op : Op) :
     Spec.modeRule P t op = Model.modeRule P s op := by
   unfold Spec.modeRule Model.modeRule
-  cases op <;> first | rfl | (simp only [hR.S]; rfl)
+  cases op <;> first | rfl | (simp only [hR.S, hR.steps]; rfl) | (simp only [hR.S, hR.steps])
 
 /-! ## callable cells agree -/
 
